@@ -8,7 +8,9 @@ made by the relational drivers and by the exhaustive sweeps):
   flip_along_axes       result == input reversed along the documented index of every axis named, left to right
   crop                  result == input[:, H//2-h//2 : +h, W//2-w//2 : +w]
   bin                   result over the COMPLETE b x b blocks == block means (int16: within 1; float32: 1e-5 relative)
-  output_file           the file the call wrote, parsed from bytes with struct, holds that same n,y,x selection
+  output_file           the file the call wrote, parsed from bytes with struct, (a) holds that same n,y,x selection and
+                        (b) equals the RETURNED array (n,y,x) exactly as values, for every operation incl. bin (all voxels)
+  output_file_bin_int16_fractional   clause (b) counted separately on int16 binnings whose block means are not integers
   indices_load          ioutils.indices_load returns the 0-based values of list / array / text file / csv flag table
 Layer B (drivers, on results of real calls):
   same_result           one stack, one operation, 4 configurations out of {array xyz, array zyx, MRC file} x {xyz, zyx}
@@ -65,11 +67,11 @@ def plan(tier):
     if tier == "quick":
         return dict(n_cases=300, shards=2, classes=CLASSES, timeout_s=600,
                     min_evals={"sort_tilts_by_angle": 1000, "remove_tilts": 1000, "split_stack_even_odd": 1000, "flip_along_axes": 2500,
-                               "crop": 1000, "bin": 1000, "output_file": 2500, "indices_load": 1000, "same_result": 4500,
+                               "crop": 1000, "bin": 1000, "output_file": 5000, "output_file_bin_int16_fractional": 150, "indices_load": 1000, "same_result": 4500,
                                "interleave": 1000, "flip_twice": 800})
     return dict(n_cases=8000, shards=16, classes=CLASSES, timeout_s=3000,
                 min_evals={"sort_tilts_by_angle": 30000, "remove_tilts": 30000, "split_stack_even_odd": 30000, "flip_along_axes": 75000,
-                           "crop": 30000, "bin": 30000, "output_file": 75000, "indices_load": 30000, "same_result": 130000,
+                           "crop": 30000, "bin": 30000, "output_file": 150000, "output_file_bin_int16_fractional": 5000, "indices_load": 30000, "same_result": 130000,
                            "interleave": 30000, "flip_twice": 23000})
 
 
@@ -89,7 +91,13 @@ def _app_stack(A):
     return True
 
 
-def _judge_file(ctx, path, exp, info, binned=None):
+def _nyx_or_none(res, order):
+    return orc.to_nyx(res, order) if isinstance(res, np.ndarray) and res.ndim == 3 else None
+
+
+def _judge_file(ctx, path, exp, info, binned=None, returned=None):
+    """two evaluations of output_file per written file: (a) the parsed file holds the expected selection (bin: block-mean
+    rule), (b) the parsed file equals the RETURNED result (n,y,x) exactly as values - every voxel, edge blocks included"""
     if not path:
         return
     if not (isinstance(path, str) and path.endswith((".mrc", ".rec"))):
@@ -101,6 +109,16 @@ def _judge_file(ctx, path, exp, info, binned=None):
         return
     w = orc.diff_exact(got, exp) if binned is None else orc.diff_binned(got, binned[0], binned[1])
     ctx.check("output_file", w is None, w and dict(w, file=os.path.basename(path), **info))
+    if returned is None:
+        return                             # malformed result: already recorded by the operation's own monitor
+    w = orc.diff_exact(got, returned)
+    w = w and dict(w, what="file differs from the returned result: " + w["what"], file=os.path.basename(path), file_dtype=str(got.dtype),
+                   returned_dtype=str(returned.dtype), **info)
+    ctx.check("output_file", w is None, w)
+    if binned is not None and binned[0].dtype.kind == "i":
+        means, _ = orc.block_means(binned[0], binned[1])
+        if means.size and bool(np.any(means != np.round(means))):
+            ctx.check("output_file_bin_int16_fractional", w is None, w)
 
 
 def _judge(ctx, name, A, res, exp, info, out_file="unset"):
@@ -110,7 +128,8 @@ def _judge(ctx, name, A, res, exp, info, out_file="unset"):
     else:
         w = orc.diff_exact(orc.to_nyx(res, A["output_order"]), exp)
         ctx.check(name, w is None, w and dict(w, **info))
-    _judge_file(ctx, A.get("output_file") if out_file == "unset" else out_file, exp, dict(info, op=name))
+    _judge_file(ctx, A.get("output_file") if out_file == "unset" else out_file, exp, dict(info, op=name),
+                returned=_nyx_or_none(res, A["output_order"]))
 
 
 def _app_sort(A):
@@ -160,8 +179,11 @@ def _post_split(ctx, A, old, res):
         ctx.check("split_stack_even_odd", w is None, w)
     pre = A.get("output_file_prefix")
     if pre:
-        _judge_file(ctx, pre + "_even.mrc", ev, dict(info, op="split_stack_even_odd", half="even"))
-        _judge_file(ctx, pre + "_odd.mrc", od, dict(info, op="split_stack_even_odd", half="odd"))
+        ok = isinstance(res, tuple) and len(res) == 2
+        _judge_file(ctx, pre + "_even.mrc", ev, dict(info, op="split_stack_even_odd", half="even"),
+                    returned=_nyx_or_none(res[0], A["output_order"]) if ok else None)
+        _judge_file(ctx, pre + "_odd.mrc", od, dict(info, op="split_stack_even_odd", half="odd"),
+                    returned=_nyx_or_none(res[1], A["output_order"]) if ok else None)
 
 
 def _app_flip(A):
@@ -218,7 +240,7 @@ def _post_bin(ctx, A, old, res):
     else:
         w = orc.diff_binned(orc.to_nyx(res, A["output_order"]), nyx, b)
         ctx.check("bin", w is None, w and dict(w, **info))
-    _judge_file(ctx, A.get("output_file"), None, dict(info, op="bin"), binned=(nyx, b))
+    _judge_file(ctx, A.get("output_file"), None, dict(info, op="bin"), binned=(nyx, b), returned=_nyx_or_none(res, A["output_order"]))
 
 
 def _app_idx(A):
@@ -249,7 +271,7 @@ def setup(ctx):
     f_crop = monitors.wrap(ctx, tiltstack, "crop", "crop", _post_crop, _app_crop)
     f_bin = monitors.wrap(ctx, tiltstack, "bin", "bin", _post_bin, _app_bin)
     f_idx = monitors.wrap(ctx, ioutils, "indices_load", "indices_load", _post_idx, _app_idx)
-    ctx.declare("output_file", "same_result", "interleave", "flip_twice")
+    ctx.declare("output_file", "output_file_bin_int16_fractional", "same_result", "interleave", "flip_twice")
     TS = tiltstack.TiltStack
     monitors.trace(ctx, [
         ("TiltStack.__init__", TS.__init__, {"load_file": "self.data = cryomap.read(tilt_stack, transpose=False)",
@@ -409,6 +431,8 @@ def gen(ctx, i, cls):
         cands = [v for v in range(2, mn + 1) if H % v or W % v] or [mn]
         b = int(rng.choice([mn, mn - 1, int(rng.choice(cands)), int(rng.choice(cands)), 3]))
     b = max(1, min(b, mn))
+    if cls in ("i16_random", "i16_extremes"):
+        b = max(2, b)                      # random int16 pixels: block means are non-integral
     # configurations
     variants = {}
     for op in OPS:
@@ -432,6 +456,8 @@ def gen(ctx, i, cls):
                 v["num"] = str(rng.choice(["int", "npint"]))
             elif op == "bin":
                 v["num"] = str(rng.choice(["int", "npint", "str"]))
+        if op == "bin" and cls in ("i16_random", "i16_extremes"):
+            vs[0]["out_file"] = vs[1]["out_file"] = True       # written file of an int16 binning: array and file input
         variants[op] = vs
     fmt = {"ang_style": str(rng.choice(["plain", "aligned", "crlf", "no_final_newline", "g"])),
            "ang_ext": str(rng.choice([".tlt", ".rawtlt", ".txt", ".csv"])),
